@@ -145,6 +145,23 @@ func (r *nodeRig) propertyMonitors(id int, label string, i int, s nStep, o nObs,
 		}
 	}
 
+	// ---- C03 (and C01): a transport completion that carries an error is not the "own transport finished" signal:
+	// on a channel this node initiated it records no FinishTransfer and never leads to Completing / Completed
+	if s.Kind == "tcompleted" && s.Failed {
+		if b, ok := before[s.K]; ok && b.SelfInit && !isTerminal(b.Status) && !cleanupStatus(b.Status) {
+			for _, e := range o.Events {
+				if e.K == s.K && e.Code == datatransfer.FinishTransfer {
+					fail("C03", "failed-transport-recorded-as-finished", "the initiator recorded its transport as finished although the transport reported an error on completion")
+					fail("C01", "failed-transport-recorded-as-finished", "the initiator recorded its transport as finished although the transport reported an error on completion")
+				}
+			}
+			if a, ok := after[s.K]; ok && (a.Status == datatransfer.Completing || a.Status == datatransfer.Completed) {
+				fail("C03", "completed-on-failed-transport", "the initiator's channel completed on a transport completion that carried an error", statusName(a.Status))
+				fail("C01", "completed-on-failed-transport", "the initiator's channel completed on a transport completion that carried an error", statusName(a.Status))
+			}
+		}
+	}
+
 	// ---- C09: a user close cancels the channel's transport request before anything releases the channel's
 	// transport resources (a close that finds the channel already cleaned up cancels nothing)
 	if s.Kind == "close" || s.Kind == "closeerr" {
@@ -392,7 +409,14 @@ func (r *nodeRig) propertyMonitors(id int, label string, i int, s nStep, o nObs,
 				}
 				if !closed {
 					fail("C04", "unvalidated-request-transport-not-closed", "the transport channel was not closed after a failed (re)validation")
+					fail("C09", "rejected-request-transport-not-closed", "the transport channel of a rejected request was not closed: its transport request is left behind")
 				}
+			}
+			// a rejected request that arrived over the transport is answered with the rejection signal: the transport
+			// terminates its request on that (any other answer, e.g. the pause signal, leaves the request alive)
+			if s.Kind == "trequest" && len(o.Vals) > 0 && !val.Err && !val.Accepted && o.Ret != 2 && o.Ret != 98 && o.Ret != 99 {
+				fail("C09", "rejected-transport-request-not-terminated", "a rejected request arriving over the transport was not answered with the rejection signal: the transport request stays open", o.Ret, 2)
+				fail("C04", "rejected-transport-request-not-terminated", "a rejected request arriving over the transport was not answered with the rejection signal: the transport keeps serving it", o.Ret, 2)
 			}
 		} else if reply != nil {
 			// exactly the validator's voucher result and pause decision; limit and finalization recorded
@@ -491,6 +515,20 @@ func (r *nodeRig) propertyMonitors(id int, label string, i int, s nStep, o nObs,
 			}
 			if !honoured && matches && sameBase && !b.SelfInit && !isTerminal(b.Status) && len(o.Vals) > 0 && o.Vals[0].Res.Accepted && !o.Vals[0].Res.Err {
 				fail("C10", "valid-restart-not-honoured", "a valid, validated restart request from the initiator was not honoured")
+			}
+		}
+	}
+
+	// ---- C10 / C07: recorded progress never goes back, whatever is reported (after a restart the transport walks the
+	// blocks it already holds again, from index 1: the counts a later restart skips by must survive that)
+	for k, b := range before {
+		if a, ok := after[k]; ok {
+			for i := range a.Counts {
+				if a.Counts[i] < b.Counts[i] {
+					fail("C10", "recorded-progress-decreased:"+s.Kind, "a recorded byte total or block count decreased: a later restart would skip fewer blocks than were transferred", a.Progress, b.Progress)
+					fail("C07", "recorded-progress-decreased:"+s.Kind, "a recorded byte total or block count decreased", a.Progress, b.Progress)
+					break
+				}
 			}
 		}
 	}
@@ -694,12 +732,14 @@ func (r *nodeRig) propertyMonitors(id int, label string, i int, s nStep, o nObs,
 			if b.RPaused && !inFinalization(b.Status) {
 				if resumed != mayResume {
 					fail("C08", "resume-rule", fmt.Sprintf("a validation update on a paused responder resumed=%v but the rule says %v (force=%v limit=%d progress=%d)", resumed, mayResume, s.Vr.Force, s.Vr.Limit, progress))
+					fail("C04", "pause-decision-not-the-validators", fmt.Sprintf("after a validation update the channel was resumed=%v although the validator's result (force=%v limit=%d against progress=%d) decides %v", resumed, s.Vr.Force, s.Vr.Limit, progress, mayResume))
 				}
 			} else if resumed {
 				fail("C08", "resume-of-unpaused", "a validation update resumed a transport channel that was not paused (or is finalizing)")
 			}
 			if !mayResume && !inFinalization(b.Status) && !after[s.K].RPaused && after[s.K].Status == b.Status {
 				fail("C08", "stays-paused-rule", "a validation update whose limit is already reached (or forced pause) did not leave the responder paused")
+				fail("C04", "pause-decision-not-the-validators", "the validator's result leaves the request paused (limit already reached, or forced pause) but the responder did not stay paused")
 			}
 		}
 	}
